@@ -554,6 +554,7 @@ var c06Corpus = []c06Witness{
 	{`a*`, "baaab"}, {``, "aé\xff"}, {`a|`, "ba"}, {`(|a)`, "a"}, {`x*`, "\xe9"}, {`^`, ""}, {`(?m)^a$`, "a\r\na"}, {`$`, "a\n"},
 	{`(?m)$`, "a\nb\n"}, {`(?m)^`, "a\nb\n"}, {`\z`, "a\n"}, {`a*?`, "aa"}, {`(a|ab)(c|bcd)`, "abcd"}, {`(?:(a)|b)+`, "ab"}, {`(a)|b`, "b"},
 	{`.`, "\r\n x\xff"}, {`(?s).`, "\r\n"}, {`[^a]`, "\xffa\n"}, {`(?i)s`, "ſS"}, {`(?i)k`, "KK"}, {`\w+`, "aé_9٣"}, {`\s`, " \v\t\f\r\n "},
+	{`.aa`, "aaa"}, {`.aa`, "aaaa"}, {`[^x]aba`, "ababa"}, {`..abab`, "xababab"}, {`.éé`, "ééé"}, {`.\.\.`, "...."}, {`[ab]aa`, "aaab aaa"}, // a self-overlapping literal at a fixed distance: an occurrence too close to the start must not hide the next one
 	{`(a)(b)?`, "a"}, {`(?i:a)b`, "Ab AB"}, {`日*`, "日日a"}, {`\d+|\D`, "12ab"}, {`é?`, "éé"},
 }
 
